@@ -161,20 +161,31 @@ Definition label (tag_safe tag_unsafe : pstr) (r : row) : pstr :=
   let tag := if r_self_safe r then tag_safe else tag_unsafe in
   match tag with [] => r_val r | _ => r_val r ++ 32%N :: tag end.
 
-(* _traverse_tree consumes the row generator lazily: the first exception in stream order wins *)
-Fixpoint traverse (sh : show_mode) (prev : nat) (rows : list row) (tail_err : option err) : res (list row) :=
+(* `hidden_level is not None and node.level > hidden_level`: the row lies below the row that was hidden last *)
+Definition below_hidden (hidden : option nat) (r : row) : bool :=
+  match hidden with Some hl => Nat.ltb hl (r_level r) | None => false end.
+
+(* _traverse_tree consumes the row generator lazily: the first exception in stream order wins.
+   `prev` is prev_level (the level of the row yielded last), `hidden` is hidden_level (D24 repaired: the level of the
+   row hidden last; every following row deeper than that level is skipped without looking at its own visibility, the
+   first row at that level or above resets it, and only then is the row's own visibility tested).  The level-difference
+   ValueError is still in the code (traverse_preorder: unreachable on a pre-order stream). *)
+Fixpoint traverse (sh : show_mode) (prev : nat) (hidden : option nat) (rows : list row) (tail_err : option err)
+  : res (list row) :=
   match rows with
   | [] => match tail_err with Some e => Raise e | None => Ok [] end
   | r :: rs =>
-      if negb (visible sh r) then traverse sh prev rs tail_err
+      if below_hidden hidden r then traverse sh prev hidden rs tail_err
+      else if negb (visible sh r) then traverse sh prev (Some (r_level r)) rs tail_err
       else if Nat.ltb (S prev) (r_level r) then Raise EValue
-      else do rest <- traverse sh (r_level r) rs tail_err; Ok (r :: rest)
+      else do rest <- traverse sh (r_level r) None rs tail_err; Ok (r :: rest)
   end.
 
+(* the root row is yielded unconditionally; hidden_level starts as None *)
 Definition traverse_all (sh : show_mode) (st : stream) : res (list row) :=
   match fst st with
   | [] => match snd st with Some e => Raise e | None => Raise EOther end   (* next() on an empty iterator *)
-  | r :: rs => do rest <- traverse sh (r_level r) rs (snd st); Ok (r :: rest)
+  | r :: rs => do rest <- traverse sh (r_level r) None rs (snd st); Ok (r :: rest)
   end.
 
 Definition walk_fuel : nat := 2000.
